@@ -154,6 +154,9 @@ def gen_cases(rng, tier):
     for m in METHODS:
         toks |= {m, m + "X", m + "1", "X" + m, m[:-1], m.lower(), m.capitalize(), m + m, m + "-", m[0] + m[1:].lower()}
     toks |= {"FOO", "x", "A", "invite2", "I", "ACKNOWLEDGE", "BYEBYE", "INFORM", "REFERRAL", "NOTIFYX", "PUB", "!", "a.b", "UP-DATE"}
+    # every token character that is no letter or digit, behind and in front of a well-known name and alone
+    for ch in "-.!%*_+`'~":
+        toks |= {"INVITE" + ch + "v2", ch + "BYE", "X" + ch + "PING", "ACK" + ch, ch}
     for j, t in enumerate(sorted(toks)):
         cases.append(["m%d" % j, "c01", "meth", hx(t)])
     # name-addr headers
@@ -179,7 +182,7 @@ def gen_cases(rng, tier):
             if kind == "cl":
                 nums = ["0"]          # a Content-Length above 0 needs that many body bytes: covered by the msg cases
             if kind in ("cseq", "rack"):
-                nums.append(rng.choice(METHODS + ["FOO", "INVITEX", "Invite"]))
+                nums.append(rng.choice(METHODS + ["FOO", "INVITEX", "Invite", "INVITE.v2", "X-PING", "BYE_", "a!%*_+`'~-."]))
             if kind == "se":
                 nums.append(rng.choice(["uac", "uas", "-"]))
             cases.append(["h%d" % j, "c01", "num", kind, ",".join(nums)]); j += 1
@@ -264,10 +267,17 @@ def oracle(case, impl):
             out.append("header value %r parses back to %s, expected %s" % (t1, m.group(2), case[4]))
     elif kind == "meth":
         tok = bytes.fromhex(case[3]).decode() if case[3] != "''" else ""
-        m = re.match(r"P=(\S*)\tK=(\S+)", impl)
+        m = re.match(r"P=(\S*)\tK=(\S+)(?:\tR=(\S+))?", impl)
         if not m:
             return ["no observation: " + impl[:200]]
         printed = bytes.fromhex(m.group(1)).decode()
+        if m.group(3) is not None and tok:
+            if m.group(3) == "UNPARSED":
+                return ["the library rejects its own request line / CSeq / RAck for method token %r" % tok]
+            for where, r in zip(("request line", "CSeq", "RAck"), m.group(3).split(",")):
+                if r != "%s/%s" % (tok.encode().hex(), m.group(2)):
+                    back = r.split("/")[0]
+                    return ["method token %r in the %s reads back as %r (%s)" % (tok, where, bytes.fromhex(back).decode("utf-8", "replace") if re.fullmatch(r"[0-9a-f]*", back) else back, r)]
         want_k = str(METHODS.index(tok)) if tok in METHODS else "-"
         if m.group(2) != want_k:
             out.append("method token %r is classified as %s, expected %s (a well-known method only when the token equals its name)" % (
